@@ -643,13 +643,40 @@ impl<'a> Harness<'a> {
         if std::env::var("VERIF_TRACE").is_ok() {
             let names = ["none", "move", "merge", "gc"];
             eprintln!("  step kind={} -> {}", names[kind as usize % 4], self.shape());
+            let mut sorted = self.universe.clone();
+            sorted.sort();
+            // rank of a key among the sorted universe keys ("7" = equals universe key #7, "7+" = between #7 and #8)
+            let rank = |k: &[u8]| match sorted.binary_search_by(|u| u.as_slice().cmp(k)) {
+                Ok(i) => format!("{i}"),
+                Err(i) => format!("{}+", i as i64 - 1),
+            };
             for (li, l) in after.iter().enumerate() {
                 for m in l.iter() {
-                    eprintln!("     L{li} [{}..{}] ts {}..{} {}", gens::show(&m.first_key), gens::show(&m.last_key), m.smallest_timestamp, m.biggest_timestamp, &setsum::Setsum::from_digest(m.setsum).hexdigest()[..8]);
+                    eprintln!("     L{li} [{}..{}] keys#[{}..{}] ts {}..{} {}", gens::show(&m.first_key), gens::show(&m.last_key), rank(&m.first_key), rank(&m.last_key), m.smallest_timestamp, m.biggest_timestamp, &setsum::Setsum::from_digest(m.setsum).hexdigest()[..8]);
                 }
             }
             if let Err(f) = self.check_reads("step") {
                 eprintln!("  !! reads wrong after this step: {}", f.message);
+                // every version of every wrongly read key, by level and file
+                let keys: Vec<Vec<u8>> = self.universe.iter().cloned().collect();
+                for k in keys.iter() {
+                    let want = self.model.get(k).cloned().flatten();
+                    let got = self.load(k).ok().and_then(|(g, _)| g);
+                    if want == got {
+                        continue;
+                    }
+                    eprintln!("     versions of key #{}:", rank(k));
+                    for (li, l) in after.iter().enumerate() {
+                        for m in l.iter() {
+                            if let Ok(es) = dump_sst(&sst_path(&self.root, m)) {
+                                for e in es.iter().filter(|e| &e.0 == k) {
+                                    eprintln!("        L{li} {} ts {} {}", &setsum::Setsum::from_digest(m.setsum).hexdigest()[..8], e.1, match &e.2 { Some(v) => format!("value[{}B]", v.len()), None => "tombstone".into() });
+                                }
+                            }
+                        }
+                    }
+                    break;
+                }
             }
         }
         if let (Some(_), Some(bd)) = (before, before_dump) {
